@@ -122,6 +122,10 @@ func c19Tokens(o json.Options) string {
 	case nil:
 		return "N"
 	case jsonflags.Bools:
+		if uint64(x)&uint64(jsonflags.NonBooleanFlags) != 0 {
+			// hypothesis Opt.WF of the Lean theorems: a Bools option never names a non-boolean flag
+			fail("C19: public constructor produced a Bools option naming a non-boolean flag: %x", uint64(x))
+		}
 		return fmt.Sprintf("B %x", uint64(x))
 	case interface{ ExperimentalSupportFormatTag() bool }:
 		if x.ExperimentalSupportFormatTag() {
